@@ -10,7 +10,7 @@
     formatter [F] writes for plan [p]; [planned o d p] = the planned commands as [Scanner.emit]
     reports them (the default delimiter stays in the text). *)
 From Coq Require Import List NArith ZArith Bool String.
-From Atlas Require Import Base.Bytes Lex.LexModel Lex.ClosedModel Lex.FmtModel Lex.QuoteModel Lex.QuoteProofs Lex.ClosedNLModel Lex.ClosedProofs Lex.FmtProofs Lex.FmtGooseProofs Lex.FmtHyp Lex.FmtRefuted gen.Gen_ScanOpts.
+From Atlas Require Import Base.Bytes Lex.LexModel Lex.ClosedModel Lex.FmtModel Lex.QuoteModel Lex.QuoteProofs Lex.ClosedNLModel Lex.ClosedProofs Lex.FmtProofs Lex.FmtGooseProofs Lex.FmtHyp Lex.FmtImportModel Lex.FmtImportProofs Lex.FmtRefuted gen.Gen_ScanOpts.
 Import ListNotations.
 
 (** Full statement 3 (every identifier the builder quotes is a closed token) is FALSE of the
@@ -298,3 +298,51 @@ Example C07_roundtrip_nonvacuous :
   /\ roundtrip_hyp FAtlas opts_mysql [] (ex_plan [10;10]%N) = true
   /\ roundtrip_hyp FGoose opts_postgres [] w_goose_plan = false.
 Proof. repeat split; vm_compute; reflexivity. Qed.
+
+(** Import (cmd/atlas migrateImportRun, Lex/FmtImportModel.v — compared with the real CLI on every
+    generated directory, file names and bytes).  Full statement: importing a third-party directory
+    preserves its statement sequence.  It is FALSE: the import keeps the source reader's FILE order
+    only if the atlas directory's lexical order of the new names agrees with it — Flyway orders
+    versions numerically (V2 before V10), the imported 10_b.sql sorts before 2_a.sql. *)
+Definition w_import_files : list (bytes * bytes) :=
+  [(bs "V2__a.sql"%string, bs ("CREATE TABLE ta (a int);" ++ nl)%string);
+   (bs "V10__b.sql"%string, bs ("CREATE TABLE tb (a int);" ++ nl)%string)].
+Theorem C07_import_order_refuted :
+  exists files out,
+    import_dir FFlyway [] files = Some out
+    /\ source_stmts FFlyway files (dir_files FFlyway (map fst files))
+        = Some [bs "CREATE TABLE ta (a int);"%string; bs "CREATE TABLE tb (a int);"%string]
+    /\ imported_stmts out
+        = Some [bs "CREATE TABLE tb (a int);"%string; bs "CREATE TABLE ta (a int);"%string].
+Proof.
+  exists w_import_files. eexists. split; [vm_compute; reflexivity|]. split; vm_compute; reflexivity.
+Qed.
+Print Assumptions C07_import_order_refuted.
+
+(** What holds, per file (partial: the directory-level statement additionally needs the file order,
+    refuted above for Flyway; comments other than whole "--" lines — block and '#' comments — are
+    covered by the tie only): if every statement the source reader returns has [import_stmt_ok]
+    (its comments are whole "--" lines, its text without the trailing ';' is closed for the generic
+    scanner), the imported file is read back, by the atlas reader, as the same statements. *)
+Theorem C07_import_file_partial : forall F now oldname newname content ss name c,
+  read F opts_generic content = RStmts ss ->
+  forallb import_stmt_ok ss = true ->
+  import_file F now oldname newname content = Some (name, c) ->
+  texts (of_scan (Stmts c)) = Some (map (fun s => trim_suffix (Text s) delimiter ++ delimiter) ss)
+  /\ ((forall s, In s ss -> has_suffix (Text s) delimiter = true) ->
+      texts (of_scan (Stmts c)) = Some (map Text ss)).
+Proof.
+  intros F now oldname newname content ss name c Hr Hok Hi.
+  unfold import_file in Hi. rewrite Hr in Hi. injection Hi as _ Hc. subst c.
+  pose proof (import_file_roundtrip (file_version F newname) (file_desc F newname) ss Hok) as H.
+  split; [exact H|]. intros Hs. rewrite texts_of_eq in H. rewrite H. f_equal. apply map_ext_in. intros s Hin.
+  pose proof (LexProofs.has_suffix_app _ _ (Hs s Hin)) as E.
+  unfold trim_suffix. rewrite (Hs s Hin). symmetry. exact E.
+Qed.
+Print Assumptions C07_import_file_partial.
+Example C07_import_file_nonvacuous :
+  match read FGoose opts_generic (bs ("-- +goose Up" ++ nl ++ "-- a comment" ++ nl ++ "CREATE TABLE t (a text DEFAULT 'x;');" ++ nl ++ "-- +goose Down" ++ nl)%string) with
+  | RStmts ss => forallb import_stmt_ok ss && (List.length ss =? 1)%nat
+  | _ => false
+  end = true.
+Proof. vm_compute. reflexivity. Qed.
